@@ -27,7 +27,19 @@ macro_rules! seg_impl {
             fn query(&mut self, a: i64, b: i64, t: i32, take: i32) -> Vec<SegVal> {
                 let mut it = self.iter_by_range(SegRange { min: a as $r, max: b as $r }, t);
                 let mut out = Vec::new();
-                if take < 0 {
+                if take == -2 {
+                    // fold-based consumption (for_each, count, sum, last ... all go through fold)
+                    out = it.fold(Vec::new(), |mut acc, v| {
+                        acc.push(v);
+                        acc
+                    });
+                } else if take == -3 {
+                    // consumed to the end, then leaked instead of dropped (safe Rust allows it)
+                    while let Some(v) = it.next() {
+                        out.push(v);
+                    }
+                    std::mem::forget(it);
+                } else if take < 0 {
                     for v in it {
                         out.push(v);
                     }
@@ -87,6 +99,9 @@ pub struct SegGen {
     pub horizon: i32,
     pub forced_clear_at: Option<usize>,
     pub generated: usize,
+    /// probability (percent) that an insert repeats the previous range (long bucket lists)
+    pub hot_pct: u64,
+    pub last_range: Option<(i64, i64)>,
 }
 
 pub struct SegWorld {
@@ -118,8 +133,10 @@ impl SegWorld {
                 horizon: *r.pick(&[2, 5, 20, 100]),
                 forced_clear_at: if cfg.has(O_TWIN) { Some(r.below(12) as usize) } else { None },
                 generated: 0,
+                hot_pct: *r.pick(&[0, 0, 0, 30, 80, 95]),
+                last_range: None,
             },
-            None => SegGen { w: [10, 10, 3, 1, 0, 1], exp_w: [1, 1, 2, 1, 1], coord_w: [1, 1, 2, 1, 1], cancel_pct: 10, horizon: 10, forced_clear_at: None, generated: 0 },
+            None => SegGen { w: [10, 10, 3, 1, 0, 1], exp_w: [1, 1, 2, 1, 1], coord_w: [1, 1, 2, 1, 1], cancel_pct: 10, horizon: 10, forced_clear_at: None, generated: 0, hot_pct: 0, last_range: None },
         };
         Ok(SegWorld { now: cfg.t0, tree, twin: None, items: Vec::new(), next_id: 1, scale, gen, cfg })
     }
@@ -259,6 +276,11 @@ impl SegWorld {
                         ctx.stats.bump("seg.scan_removed_expired_copies");
                     }
                 }
+                if take == -2 {
+                    ctx.stats.bump("seg.query_consumed_by_fold");
+                } else if take == -3 {
+                    ctx.stats.bump("fault.iter_leaked_after_full_consumption");
+                }
                 if take >= 0 {
                     ctx.stats.bump("fault.iter_cancel");
                     if (take as usize) < expect.len() {
@@ -393,7 +415,7 @@ impl World for SegWorld {
         match op {
             Op::Tick { dt } => *dt >= 0,
             Op::SIns { a, b, .. } => lo <= *a && a <= b && *b <= hi,
-            Op::SQuery { a, b, .. } => lo <= *a && a <= b && *b <= hi,
+            Op::SQuery { a, b, take } => lo <= *a && a <= b && *b <= hi && *take >= -3,
             Op::SClear { .. } => true,
             _ => false,
         }
@@ -476,7 +498,11 @@ impl World for SegWorld {
         let which = r.weighted(&self.gen.w.clone());
         match which {
             0 => {
-                let (a, b) = self.pick_range(r);
+                let (a, b) = match self.gen.last_range {
+                    Some(lr) if r.below(100) < self.gen.hot_pct => lr,
+                    _ => self.pick_range(r),
+                };
+                self.gen.last_range = Some((a, b));
                 let t = self.now;
                 let h = self.gen.horizon;
                 let exp = match r.weighted(&self.gen.exp_w) {
@@ -490,7 +516,7 @@ impl World for SegWorld {
             }
             1 => {
                 let (a, b) = if r.chance(1, 5) { (self.cfg.seg_lo, self.cfg.seg_hi) } else { self.pick_range(r) };
-                let take = if r.below(100) < self.gen.cancel_pct { r.range(0, 4) as i32 } else { -1 };
+                let take = if r.below(100) < self.gen.cancel_pct { r.range(0, 4) as i32 } else { *r.pick(&[-1, -1, -1, -1, -2, -2, -3]) };
                 Op::SQuery { a, b, take }
             }
             2 => Op::Tick { dt: r.below(2) as i32 },
